@@ -378,6 +378,24 @@ func runC09(c *Ctx) {
 	ruleR09_3(c)
 	ruleR09_45(c)
 	ruleMemoContextRooted(c, "R09.5")
+	// the alternative that admitted THIS authentication is recorded unconditionally: a value left by an earlier
+	// authentication of the same request (before ResetAuth) never survives a later one
+	if ra := p.FnOpt("(*rt/middleware.RouteAuthenticator).Authenticate"); ra != nil {
+		isRec := func(in ssa.Instruction) bool {
+			st, ok := in.(*ssa.Store)
+			if !ok {
+				return false
+			}
+			_, okF := fieldAddrOf(st.Addr, "rt/middleware.MatchedRoute", "Authenticator")
+			return okF
+		}
+		for _, r := range realReturns(ra) {
+			if b, isB := constBool(resOf(r, 0)); !isB || !b {
+				continue
+			}
+			c.obI("R09.4", r, "admitting-alternative-always-recorded", !pathExists(ra, nil, r, nil, isRec), "every successful authentication records its alternative in the matched route", "a success return is reachable without route.Authenticator having been (re)written: scopes and NeedsAuth answer for an earlier authentication")
+		}
+	}
 	// the route of a request is computed once: library code asks the router through the memoising accessor RouteInfo only —
 	// a stage that calls LookupRoute itself computes a second MatchedRoute the later stages do not see (and they look again)
 	for _, fn := range p.LibFuncs("rt/middleware") {
